@@ -40,6 +40,7 @@ fn main() {
     match prop.as_str() {
         "C02" => props::c02::run(&mut ctx),
         "C04" => props::c04::run(&mut ctx),
+        "C07" => props::c07::run(&mut ctx),
         x => { eprintln!("no harness for {x}"); std::process::exit(2); }
     }
     let mut j = ctx.ev.to_json();
